@@ -20,6 +20,13 @@ edn_value_t* edn_read_metadata(edn_parser_t* parser) {
     /* Step 1: Parse the metadata value */
     edn_value_t* meta_value = edn_read_value(parser);
     if (meta_value == NULL || parser->error != EDN_OK) {
+        if (parser->error == EDN_OK) {
+            /* A closing delimiter where the annotation should be */
+            parser->error = EDN_ERROR_INVALID_SYNTAX;
+            parser->error_message = "Metadata marker missing its annotation";
+            parser->error_start = value_start;
+            parser->error_end = parser->current;
+        }
         return NULL;
     }
 
@@ -36,6 +43,13 @@ edn_value_t* edn_read_metadata(edn_parser_t* parser) {
     /* Step 2: Parse the value to attach metadata to */
     edn_value_t* form = edn_read_value(parser);
     if (form == NULL || parser->error != EDN_OK) {
+        if (parser->error == EDN_OK) {
+            /* A closing delimiter where the annotated form should be */
+            parser->error = EDN_ERROR_INVALID_SYNTAX;
+            parser->error_message = "Metadata marker missing the form it applies to";
+            parser->error_start = value_start;
+            parser->error_end = parser->current;
+        }
         return NULL;
     }
 
